@@ -540,7 +540,8 @@ class FnView:
                 return x
             return ("cast", rv.a, x)
         if rv.op == "discr":
-            return ("discr", self.place_expr(rv.place, depth + 1))
+            ty = self.b._types[rv.extra] if rv.extra is not None else ""
+            return ("discr", self.place_expr(rv.place, depth + 1), ty)
         if rv.op == "agg":
             a = rv.a
             ops = tuple(self.expr(o, depth + 1) for o in rv.ops)
